@@ -1,4 +1,5 @@
 import DimodModel.SampleSet
+import Generated.SampleArray
 
 /-! # `as_samples`: every accepted form, overload by overload (C14)
 
@@ -51,8 +52,14 @@ def DT.iinfoMax : DT → Int
   | .int8 => 127 | .int16 => 32767 | .int32 => 2147483647 | .int64 => 9223372036854775807
   | _ => 0
 
-/-- the candidate list of `_sample_array`: `(np.int8, np.int16, np.int32, np.int64)` -/
-def intCandidates : List DT := [.int8, .int16, .int32, .int64]
+def DT.ofName : String → Option DT
+  | "int8" => some .int8 | "int16" => some .int16 | "int32" => some .int32 | "int64" => some .int64
+  | "float32" => some .float32 | "float64" => some .float64 | "bool" => some .bool
+  | _ => none
+
+/-- the candidate list of `_sample_array` (`(np.int8, np.int16, np.int32, np.int64)`), as `harness/translators/sample_array.py`
+    reads it off the source on every run -/
+def intCandidates : List DT := Generated.SampleArray.intCandidateNames.filterMap DT.ofName
 
 /-- NumPy's `result_type` of two of the dtypes above (what `np.vstack` gives its result) -/
 def DT.promote : DT → DT → DT
@@ -139,7 +146,9 @@ def maxInit0 (xs : List Rat) : Rat := xs.foldl (fun m x => if m < x then x else 
 /-- `next(tp for tp in (int8, int16, int32, int64) if max_ <= np.iinfo(tp).max)`; `StopIteration` → `ValueError` -/
 def smallestInt (xs : List Rat) : Except Err DT :=
   let max_ := if maxInit0 xs < -minInit0 xs then -minInit0 xs else maxInit0 xs
-  match intCandidates.find? (fun tp => decide (max_ ≤ (tp.iinfoMax : Rat))) with
+  -- the comparison of the source (`<=`), extracted
+  match intCandidates.find? (fun tp => if Generated.SampleArray.candidateTestIsLe then decide (max_ ≤ (tp.iinfoMax : Rat))
+                                         else decide (max_ < (tp.iinfoMax : Rat))) with
   | some tp => .ok tp
   | none => .error .value
 
